@@ -25,13 +25,28 @@ const (
 	siteGdefHeader    = "gdef.headerOffset"          // a sub-table of GDEF starts beyond 64 KiB
 )
 
+// drawHuge decides whether a table with (tens of) thousands of entries is
+// generated: about 1 in 8 cases in the quick tier, 1 in 3 in the thorough tier.
+func drawHuge(t *rapid.T, label string) bool {
+	den := 8
+	if stats.Thorough() {
+		den = 3
+	}
+	return rapid.IntRange(0, den-1).Draw(t, label+"Huge") == 0
+}
+
 var boundary = []int{0, 1, 2, 0xFE, 0xFF, 0x100, 0x7FFF, 0x8000, 0xFFFE, 0xFFFF}
 
 // genGlyphSet draws a set of glyph ids over the full 16-bit range, in
 // increasing order.  Large sets are expanded from a few drawn parameters.
 func genGlyphSet(t *rapid.T, label string) ([]glyph.ID, string) {
 	seen := map[int]bool{}
-	kind := rapid.SampledFrom([]string{"empty", "few", "few", "few", "runs", "runs", "pattern", "pattern", "full", "holes"}).Draw(t, label+"Kind")
+	kinds := []string{"empty", "few", "few", "few", "few", "runs", "runs", "runs"}
+	huge := drawHuge(t, label)
+	if huge {
+		kinds = []string{"runs-long", "pattern", "pattern", "full", "holes"}
+	}
+	kind := rapid.SampledFrom(kinds).Draw(t, label+"Kind")
 	switch kind {
 	case "few":
 		n := rapid.IntRange(1, 12).Draw(t, label+"N")
@@ -49,14 +64,17 @@ func genGlyphSet(t *rapid.T, label string) ([]glyph.ID, string) {
 			seen[g] = true
 			prev = g
 		}
-	case "runs":
+	case "runs", "runs-long":
 		n := rapid.IntRange(1, 6).Draw(t, label+"NRuns")
 		for i := 0; i < n; i++ {
 			start := rapid.IntRange(0, 0xFFFF).Draw(t, label+"RunStart")
 			if rapid.IntRange(0, 3).Draw(t, label+"RunB") == 0 {
 				start = rapid.SampledFrom(boundary).Draw(t, label+"RunStartB")
 			}
-			l := rapid.SampledFrom([]int{1, 2, 3, 4, 5, 10, 100, 1000, 20000, 70000}).Draw(t, label+"RunLen")
+			l := rapid.SampledFrom([]int{1, 2, 3, 4, 5, 10, 100, 300}).Draw(t, label+"RunLen")
+			if kind == "runs-long" {
+				l = rapid.SampledFrom([]int{1000, 5000, 20000, 70000}).Draw(t, label+"RunLenLong")
+			}
 			for g := start; g < start+l && g <= 0xFFFF; g++ {
 				seen[g] = true
 			}
@@ -175,10 +193,31 @@ func TestC08Coverage(t *testing.T) {
 			t.Fatalf("C08 violated [key=clause:coverage]: %v\ncase: %d glyphs (%s): %v", err, len(gg), kind, head(gg))
 		}
 		labels = append(labels, "set:"+kind)
-		stats.CaseIn("coverage", stats.Hash(fmt.Sprint(gg)), len(gg) >= 2, func() string {
+		stats.CaseIn("coverage", hashGlyphs(gg), len(gg) >= 2, func() string {
 			return fmt.Sprintf("%d glyphs (%s): %v %v", len(gg), kind, head(gg), labels)
 		}, labels...)
 	})
+}
+
+func hashGlyphs(gg []glyph.ID) uint64 {
+	buf := make([]byte, 2*len(gg))
+	for i, g := range gg {
+		buf[2*i], buf[2*i+1] = byte(g>>8), byte(g)
+	}
+	return stats.Hash(buf)
+}
+
+func hashClasses(c classdef.Table) uint64 {
+	buf := make([]byte, 0, 5*len(c)+1)
+	if c == nil {
+		buf = append(buf, 'n')
+	}
+	for g := 0; g <= 0xFFFF && len(c) > 0; g++ {
+		if v, ok := c[glyph.ID(g)]; ok {
+			buf = append(buf, byte(g>>8), byte(g), byte(v>>8), byte(v), ',')
+		}
+	}
+	return stats.Hash(buf)
 }
 
 func head[T any](x []T) string {
@@ -192,7 +231,12 @@ func head[T any](x []T) string {
 // Explicit zero entries occur only strictly between classified glyphs.
 func genClassDef(t *rapid.T, label string) (classdef.Table, string) {
 	res := classdef.Table{}
-	kind := rapid.SampledFrom([]string{"empty", "few", "few", "few", "ranges", "ranges", "alternating", "alternating", "full-one-class", "full-alternating"}).Draw(t, label+"Kind")
+	kinds := []string{"empty", "few", "few", "few", "ranges", "ranges", "alternating", "alternating"}
+	huge := drawHuge(t, label)
+	if huge {
+		kinds = []string{"ranges-long", "alternating-long", "alternating-long", "full-one-class", "full-alternating", "full-alternating"}
+	}
+	kind := rapid.SampledFrom(kinds).Draw(t, label+"Kind")
 	cls := func() uint16 {
 		if rapid.IntRange(0, 4).Draw(t, label+"ClsB") == 0 {
 			return uint16(rapid.SampledFrom([]int{1, 255, 256, 0x7FFF, 0xFFFF}).Draw(t, label+"ClsBig"))
@@ -208,20 +252,23 @@ func genClassDef(t *rapid.T, label string) (classdef.Table, string) {
 		for _, g := range gg {
 			res[g] = cls()
 		}
-	case "ranges":
+	case "ranges", "ranges-long":
 		n := rapid.IntRange(1, 6).Draw(t, label+"NRanges")
 		for i := 0; i < n; i++ {
 			start := rapid.IntRange(0, 0xFFFF).Draw(t, label+"Start")
 			if rapid.IntRange(0, 3).Draw(t, label+"StartB") == 0 {
 				start = rapid.SampledFrom(boundary).Draw(t, label+"StartAt")
 			}
-			l := rapid.SampledFrom([]int{1, 2, 3, 5, 10, 100, 3000, 30000, 70000}).Draw(t, label+"Len")
+			l := rapid.SampledFrom([]int{1, 2, 3, 5, 10, 100, 300}).Draw(t, label+"Len")
+			if kind == "ranges-long" {
+				l = rapid.SampledFrom([]int{3000, 30000, 70000}).Draw(t, label+"LenLong")
+			}
 			c := cls()
 			for g := start; g < start+l && g <= 0xFFFF; g++ {
 				res[glyph.ID(g)] = c
 			}
 		}
-	case "alternating", "full-alternating":
+	case "alternating", "alternating-long", "full-alternating":
 		// dense table: classes cycle with period k over [a, b]
 		k := rapid.IntRange(2, 4).Draw(t, label+"Period")
 		cc := make([]uint16, k)
@@ -235,9 +282,16 @@ func genClassDef(t *rapid.T, label string) (classdef.Table, string) {
 			}
 		}
 		a, b := 0, 0xFFFF
-		if kind == "alternating" {
+		switch kind {
+		case "alternating":
 			a = rapid.IntRange(0, 0xFFFF).Draw(t, label+"A")
-			b = min(0xFFFF, a+rapid.SampledFrom([]int{1, 2, 3, 4, 5, 6, 7, 10, 100, 5000, 40000, 65534}).Draw(t, label+"Span"))
+			b = min(0xFFFF, a+rapid.SampledFrom([]int{1, 2, 3, 4, 5, 6, 7, 10, 100, 400}).Draw(t, label+"Span"))
+		case "alternating-long":
+			a = rapid.IntRange(0, 0xFFFF).Draw(t, label+"A")
+			if rapid.Bool().Draw(t, label+"A01") {
+				a = rapid.IntRange(0, 1).Draw(t, label+"Alow")
+			}
+			b = min(0xFFFF, a+rapid.SampledFrom([]int{5000, 21844, 21845, 21846, 40000, 65534}).Draw(t, label+"SpanLong"))
 		}
 		runLen := rapid.SampledFrom([]int{1, 1, 2, 3, 4}).Draw(t, label+"RunLen")
 		for g := a; g <= b; g++ {
@@ -357,7 +411,7 @@ func TestC08ClassDef(t *testing.T) {
 			t.Fatalf("C08 violated [key=%s]: %s\ncase: %d entries (%s): %s", f.key, f.msg, len(c), kind, dump(c, 3000))
 		}
 		labels = append(labels, "table:"+kind)
-		stats.CaseIn("classdef", stats.Hash(dump(c, 1<<20)), len(nonZero(c)) >= 2, func() string {
+		stats.CaseIn("classdef", hashClasses(c), len(nonZero(c)) >= 2, func() string {
 			return fmt.Sprintf("%d entries (%s) %v: %s", len(c), kind, labels, dump(c, 300))
 		}, labels...)
 	})
@@ -551,7 +605,11 @@ func TestC08Gdef(t *testing.T) {
 				nt++
 			}
 		}
-		stats.CaseIn("gdef", stats.Hash(dump(x, 1<<16), c.desc), nt >= 2, func() string {
+		fp := stats.Hash(hashClasses(x.GlyphClass), hashClasses(x.MarkAttachClass), len(x.MarkGlyphSets), x.MarkGlyphSets == nil, c.desc)
+		for _, set := range x.MarkGlyphSets {
+			fp = stats.Hash(fp, hashGlyphs(set.Glyphs()))
+		}
+		stats.CaseIn("gdef", fp, nt >= 2, func() string {
 			return fmt.Sprintf("%s: %d glyph classes, %d attach classes, %d mark sets %v", c.desc, len(x.GlyphClass), len(x.MarkAttachClass), len(x.MarkGlyphSets), labels)
 		}, labels...)
 	})
